@@ -151,9 +151,6 @@ func genG20(repo string, w *Out) error {
 				return fmt.Errorf("NewListener: body %q of `if %s` is not `<limiter> = newRateLimiter(%s)`", lf.Src(x.Body.List[0]), lf.Src(x.Cond), lim)
 			}
 			v := lf.Src(as.Lhs[0])
-			if v != "rxLimiter" && v != "txLimiter" {
-				return fmt.Errorf("NewListener: %q assigns neither rxLimiter nor txLimiter", lf.Src(as))
-			}
 			if _, dup := feeds[lim]; dup {
 				return fmt.Errorf("NewListener: %s is tested twice", lim)
 			}
@@ -169,13 +166,12 @@ func genG20(repo string, w *Out) error {
 			gd, _ := x.Decl.(*ast.GenDecl)
 			okDecl := false
 			if gd != nil && gd.Tok == token.VAR && len(gd.Specs) == 1 {
-				if vs, ok := gd.Specs[0].(*ast.ValueSpec); ok && len(vs.Values) == 0 && len(vs.Names) == 2 &&
-					vs.Names[0].Name == "rxLimiter" && vs.Names[1].Name == "txLimiter" && lf.Src(vs.Type) == "*rate.Limiter" {
+				if vs, ok := gd.Specs[0].(*ast.ValueSpec); ok && len(vs.Values) == 0 && len(vs.Names) == 2 && lf.Src(vs.Type) == "*rate.Limiter" {
 					okDecl = true
 				}
 			}
 			if !okDecl {
-				return fmt.Errorf("NewListener: declaration %q is not `var rxLimiter, txLimiter *rate.Limiter`", lf.Src(x))
+				return fmt.Errorf("NewListener: declaration %q is not `var <a>, <b> *rate.Limiter`", lf.Src(x))
 			}
 		default:
 			return fmt.Errorf("NewListener: statement %q is not a shape the model knows", lf.Src(s))
@@ -184,8 +180,6 @@ func genG20(repo string, w *Out) error {
 	if len(feeds) != 2 || feeds["readLimit"] == feeds["writeLimit"] {
 		return fmt.Errorf("NewListener: limits feed %v, expected one limiter each", feeds)
 	}
-	w.DefBool("read_limit_feeds_tx", feeds["readLimit"] == "txLimiter")
-	w.DefBool("write_limit_feeds_rx", feeds["writeLimit"] == "rxLimiter")
 	if guard["readLimit"] != guard["writeLimit"] {
 		return fmt.Errorf("NewListener: the two guards use different operators")
 	}
@@ -215,14 +209,23 @@ func genG20(repo string, w *Out) error {
 	if lm["Listener"] != "l" {
 		return fmt.Errorf("NewListener: returned literal %v does not embed l", lm)
 	}
-	switch {
-	case lm["rxLimiter"] == "rxLimiter" && lm["txLimiter"] == "txLimiter":
-		w.DefBool("listener_fields_straight", true)
-	case lm["rxLimiter"] == "txLimiter" && lm["txLimiter"] == "rxLimiter":
-		w.DefBool("listener_fields_straight", false)
-	default:
-		return fmt.Errorf("NewListener: returned literal %v is not a shape the model knows", lm)
+	// which struct field each limit ends up in (through the local variable it is assigned to)
+	fieldOf := func(v string) string {
+		switch {
+		case lm["rxLimiter"] == v && lm["txLimiter"] != v:
+			return "rxLimiter"
+		case lm["txLimiter"] == v && lm["rxLimiter"] != v:
+			return "txLimiter"
+		}
+		return ""
 	}
+	rfield, wfield := fieldOf(feeds["readLimit"]), fieldOf(feeds["writeLimit"])
+	if rfield == "" || wfield == "" || rfield == wfield {
+		return fmt.Errorf("NewListener: limits feed %v and the returned literal is %v: not one limiter field each", feeds, lm)
+	}
+	w.DefBool("read_limit_feeds_tx", rfield == "txLimiter")
+	w.DefBool("write_limit_feeds_rx", wfield == "rxLimiter")
+	w.DefBool("listener_fields_straight", true) // folded into the two flags above
 	ac, err := lf.Func("Listener.Accept")
 	if err != nil {
 		return err
